@@ -3,7 +3,8 @@ from pv import obs_effects as E
 from pv import obs_classes as C
 
 KEYS = ['parso.python.errors.ErrorFinder._add_syntax_error', 'parso.python.errors.ErrorFinder._add_indentation_error',
-        'parso.normalizer.Issue.__init__', 'parso.python.errors.ErrorFinder.add_issue']
+        'parso.normalizer.Issue.__init__', 'parso.python.errors.ErrorFinder.add_issue',
+        'parso.python.errors.ErrorFinder.add_issue#part', 'parso.python.errors.ErrorFinder.visit_leaf#error_leaf']
 
 
 def _effects():
